@@ -91,6 +91,9 @@ type Config struct {
 	// WideCompare: install a KeyCompare that answers like strcmp (negative / zero / positive, here
 	// -3, 0, 3) instead of -1, 0, 1: RemoteConfig.KeyCompare documents no range
 	WideCompare bool
+	// DefaultMarshal: RemoteConfig.Marshal / Unmarshal are left nil (the library's own defaults; no marshal
+	// call counting or fault injection in such a configuration)
+	DefaultMarshal bool
 	// TwoSlots: the alphabet works on two tree slots (clone either way, modify and persist both, load kept
 	// roots into the second): the structural monitors then also judge versions persisted by trees that
 	// share in-memory nodes with another live tree
